@@ -18,7 +18,7 @@ MinSet(S) == CHOOSE x \in S : \A y \in S : x <= y
 MaxSet(S) == CHOOSE x \in S : \A y \in S : x >= y
 
 VSet(tup) == {tup[i] : i \in DOMAIN tup}
-IsInjectiveSeq(s) == \A i, j \in DOMAIN s : i # j => s[i] # s[j]
+IsInjectiveSeq(s) == Cardinality({s[i] : i \in DOMAIN s}) = Len(s)      \* no repeated entry (n log n, not n^2)
 
 \* sorted sequence of a finite set of integers
 RECURSIVE SortedSeq(_)
